@@ -59,8 +59,7 @@ RULE = ("case = (configuration [1..3 processes, thorough also 4; program per pro
         "twice/die/rogue; initial link none/stale/live-foreign], schedule of primitive calls).  ALL "
         "schedules of every configuration are enumerated (DFS, pruning on the full state); every "
         "state is checked and counted in `states`; distinct = (configuration, state) pairs, recorded "
-        "for the first 4000 states of each configuration; quick omits the five 3-process "
-        "configurations with two or more `twice` programs.")
+        "for the first 4000 states of each configuration; the 4-process configurations are thorough only.")
 ASSUMPTIONS = [
     "trusted base: the in-memory link table implements symlink/readlink/remove/kill(pid,0) with POSIX atomicity and errnos",
     "processes interleave only at the lock module's filesystem primitives (symlink, readlink, rmlink, kill); pids are not reused",
@@ -607,8 +606,6 @@ def configs(tier):
             for b in range(a, len(progs)):
                 for c in range(b, len(progs)):
                     p3 = [progs[a], progs[b], progs[c]]
-                    if tier == "quick" and p3.count("twice") >= 2:
-                        continue  # the five largest state spaces (40% of all states): thorough tier only
                     out.append({"programs": p3, "initial": initial})
         if tier != "quick":
             small = ["once", "die", "rogue", "retry"]
